@@ -34,7 +34,7 @@ func init() {
 		Subs: []*run.Sub{
 			{Name: "generator", N: func(t string) uint64 {
 				if t == "thorough" {
-					return 4_000_000
+					return 16_000_000
 				}
 				return 150_000
 			}, Run: c20Generator,
@@ -42,14 +42,14 @@ func init() {
 					"verb_H": 1000, "verb_h": 1000, "verb_V": 1000, "verb_v": 1000, "verb_T": 1000, "verb_t": 1000, "verb_S": 1000, "verb_s": 1000, "verb_Q": 1000, "verb_q": 1000, "verb_C": 1000, "verb_c": 1000, "verb_A": 1000, "verb_a": 1000}},
 			{Name: "converter", N: func(t string) uint64 {
 				if t == "thorough" {
-					return 4_000_000
+					return 16_000_000
 				}
 				return 150_000
 			}, Run: c20Converter,
 				Min: map[string]int64{"strings": 100000, "with_opacity": 20000, "opacity_register_reused": 5000, "circles": 20000, "circle_only_paths": 1000, "offsets_nonzero": 20000}},
 			{Name: "concat", N: func(t string) uint64 {
 				if t == "thorough" {
-					return 2_000_000
+					return 8_000_000
 				}
 				return 100_000
 			}, Run: c20Concat,
